@@ -15,15 +15,20 @@ String Notation String.string String.string_of_list_byte String.list_byte_of_str
 Definition Sx (s : String.string) : str := map Ascii.N_of_ascii (String.list_ascii_of_string s).
 
 Record dr := { d_raw : outcome (list str);   (* pipeline + conditions + finish_query, from the rule source *)
-               d_finfail : bool }.           (* a post-processing item rejects this rule's queries *)
+               d_finfail : bool;             (* a post-processing item rejects this rule's queries *)
+               d_index : str }.              (* pipeline state "index" after the pipeline ran on this rule *)
 Record cr := { c_pre : outcome unit;         (* pipeline application on the correlation rule *)
                c_names : list str;           (* names of the referenced rules *)
-               c_finfail : bool }.
-Record cfg := { k_test : bool;               (* output format "test" (else "default") *)
+               c_finfail : bool;
+               c_index : str }.
+Record cfg := { k_fmt : N;                   (* output format: 0 "default", 1 "test", 2 "state" *)
                 k_pipe : bool }.             (* user pipeline with EmbedQueryTransformation("<", ">") *)
 
 Definition s_open : str := [91;32].           (* "[ " *)
 Definition s_close : str := [32;93].         (* " ]" *)
+Definition s_idx : str := [105;110;100;101;120;61].   (* "index=" *)
+Definition s_idx2 : str := [32;40].                   (* " (" *)
+Definition s_idx3 : str := [41].                      (* ")" *)
 Definition s_lt : str := [60].
 Definition s_gt : str := [62].
 Definition s_sub1 : str := [115;117;98;115;101;97;114;99;104;32;123;32].           (* "subsearch { " *)
@@ -36,7 +41,12 @@ Fixpoint join (sep : str) (l : list str) : str :=
   match l with [] => [] | [x] => x | x :: r => x ++ sep ++ join sep r end.
 
 Definition finq_c (K : cfg) (p : payload dr cr) (i : nat) (q : str) : outcome str :=
-  let q1 := if k_test K then s_open ++ q ++ s_close else q in
+  let idx := match p with PD d => d_index d | PC c => c_index c end in
+  let q1 := match k_fmt K with
+            | 1 => s_open ++ q ++ s_close
+            | 2 => s_idx ++ idx ++ s_idx2 ++ q ++ s_idx3
+            | _ => q
+            end in
   let q2 := if k_pipe K then s_lt ++ q1 ++ s_gt else q1 in
   let ff := match p with PD d => d_finfail d | PC c => c_finfail c end in
   if ff then SigmaErr E_Transformation else Ok q2.
